@@ -5,6 +5,9 @@
                                                 keywords are put in that order.  The set of keywords must be exactly the declared
                                                 parameter list (a renamed / added / dropped keyword is refused); the callees are
                                                 themselves translated functions whose "pyargs" entry pins the real signature.
+  x ** e  (e not a non-negative integer literal)  -> (pypow x e)   [wave 8, audit 5a B1]  Model/PyPow.v: Python's float power on a base
+                                                >= 0 (0 ** positive = 0, 0 ** 0 = 1, 0 ** negative raises: pypow_raises); py2coq's own
+                                                translation is Rpower, and Rpower 0 e = 1.  np.power(..) is NOT touched (spec "calls").
 Nothing else is handled here (every other node falls through to py2coq).
 """
 import ast
@@ -27,6 +30,10 @@ class Ext:
                     raise py2coq.Unsupported(f"keyword call {py2coq.src(e)}: keywords {given} are not the declared parameters {sig}")
                 byname = {k.arg: k.value for k in e.keywords}
                 return "(" + " ".join([ctx.calls[f]] + [py2coq.expr(ctx, byname[p]) for p in sig]) + ")"
+        if isinstance(e, ast.BinOp) and isinstance(e.op, ast.Pow) and ctx.dom == "R":
+            b = e.right
+            if not (isinstance(b, ast.Constant) and isinstance(b.value, int) and not isinstance(b.value, bool) and b.value >= 0):
+                return f"(pypow {py2coq.expr(ctx, e.left)} {py2coq.expr(ctx, b)})"
         return None
 
     def bexpr(self, ctx, e):
